@@ -15,10 +15,14 @@ trap 'git -C /repo worktree remove --force $ALT/repo 2>/dev/null; rm -rf $ALT' E
 git -C $ALT/repo apply $PATCH || { echo "patch does not apply"; exit 2; }
 rsync -a --exclude target /verif/harness/ $ALT/harness/
 sed -i "s#path = \"/repo\"#path = \"$ALT/repo\"#" $ALT/harness/Cargo.toml
-sed -i "s#/verif/harness/target#$ALT/harness/target#" $ALT/harness/.cargo/config.toml
-grep -q "$ALT/harness/target" $ALT/harness/.cargo/config.toml || { echo "cannot redirect the target dir"; exit 2; }
+# ALT_TARGET (optional): a target directory that survives this run, so that the crates falcon depends on are compiled once
+# per lane instead of once per patch (falcon itself and the harness are rebuilt: their path differs).  One user at a time.
+TGT=${ALT_TARGET:-$ALT/harness/target}
+sed -i "s#/verif/harness/target#$TGT#" $ALT/harness/.cargo/config.toml
+grep -q "$TGT" $ALT/harness/.cargo/config.toml || { echo "cannot redirect the target dir"; exit 2; }
+export FV_BIN_DIR=$TGT/release
 for P in "$@"; do
-  ( cd /verif && FV_HARNESS_DIR=$ALT/harness FV_OUT_DIR=$ALT/out timeout 3000 ./check $P quick > $DEST/check.$P.log 2>&1; echo "exit=$?" >> $DEST/check.$P.log )
+  ( cd /verif && FV_HARNESS_DIR=$ALT/harness FV_OUT_DIR=$ALT/out timeout 6000 ./check $P quick > $DEST/check.$P.log 2>&1; echo "exit=$?" >> $DEST/check.$P.log )
   R=$(grep -m1 "^VIOLATION" $DEST/check.$P.log | sed 's/.*replay=\([^ ]*\).*/\1/')
   [ -n "$R" ] && [ -f "/verif/$R" ] && cp "/verif/$R" $DEST/replay.$P.json
   echo "$(basename $SRC) $P: $(grep -c '^VIOLATION' $DEST/check.$P.log) VIOLATION lines, $(grep -c 'no-failing-input-found' $DEST/check.$P.log) without failing input, $(tail -1 $DEST/check.$P.log)"
